@@ -145,7 +145,7 @@ pub fn main(args: &[String]) -> i32 {
             Chunk { env: vec![], jobs: vec![(5, json!({"t":"canary_deadlock"}))] },
             Chunk { env: vec![], jobs: vec![(6, json!({"t":"canary_poison"}))] },
         ],
-        &RunOpts { engine: "canary".into(), workers: 4, job_timeout_ms: 1_500, mem_mb: 0, use_shim: false },
+        &RunOpts { engine: "canary".into(), workers: 4, job_timeout_ms: 8_000, mem_mb: 0, use_shim: false },
         &scratch.dir,
     );
     let abort_ok = matches!(can.get(&1), Some(Outcome::Abort { .. })) && matches!(can.get(&0), Some(Outcome::Result(_))) && matches!(can.get(&2), Some(Outcome::Result(_)));
